@@ -213,7 +213,50 @@ def st_chain():
     ], cfg_extra=cfg)
 
 
-CHEAP = [st_liesel_graph, st_liesel_build, st_var_wiring, st_chain]
+def st_groups():
+    from harness import growth_driver as D
+
+    rng = random.Random(8)
+    while True:
+        t = D.groups_trace(rng)
+        ia = next((i for i, e in enumerate(t["ev"]) if e["rej"] == "none"), None)
+        ir = next((i for i, e in enumerate(t["ev"]) if e["rej"] == "already_member"), None)
+        if ia is not None and ir is not None:
+            break
+    cfg = 'CONSTANTS NM = 4 GNames = {"a", "b"} Atomic = FALSE MaxGroups = 99\n'
+
+    def c1(tr):
+        tr["ev"][ir]["rej"] = "none"
+
+    def c2(tr):
+        m = tr["ev"][ia]["members"][0]
+        tr["ev"][ia]["reg"][m - 1][tr["ev"][ia]["name"]] = 0
+    return _run("Groups", "Trace_Groups.tla", t, [
+        ("rejected constructor reported as accepted", c1, ir + 1, "group_rejected_iff_a_member_already_has_a_group_of_that_name"),
+        ("a member is not registered", c2, ia + 1, "member_registrations"),
+    ], cfg_extra=cfg)
+
+
+def st_distreg():
+    from harness import growth_driver as D
+
+    rng = random.Random(9)
+    while True:
+        t = D.distreg_trace(rng, 12)
+        ia = next((i for i, e in enumerate(t["ev"]) if e["op"] in ("p_smooth", "np_smooth") and e["rej"] == "none"), None)
+        if ia is not None:
+            break
+    cfg = 'CONSTANTS Preds = {"loc", "scale"} Explicit = {"", "s"}\n'
+
+    def c1(tr):
+        p = tr["ev"][ia]["p"]
+        tr["ev"][ia]["pred_in"][p][-1] = "wrong_name"
+    return _run("DistReg", "Trace_DistReg.tla", t, [
+        ("automatic smooth name changed", c1, ia + 1, "predictor_inputs_are_the_smooths_in_order_of_addition"),
+    ], cfg_extra=cfg)
+
+
+CHEAP = [st_liesel_graph, st_liesel_build, st_var_wiring, st_chain, st_groups, st_distreg]
 ALL = CHEAP + [st_mh, st_da, st_engine, st_results]
 
 
